@@ -1,3 +1,5 @@
+import operator
+
 import numpy as np
 
 import lentil
@@ -55,7 +57,7 @@ def propagate_fft(wavefront, pixelscale, shape=None, oversample=2,
         shape_out = tuple(fft_shape)
         shape = (fft_shape[0]//oversample, fft_shape[1]//oversample)
     else:
-        shape = tuple(np.broadcast_to(shape, (2,)))
+        shape = tuple(_int_pair(shape))
         if np.any(shape > fft_shape/oversample):
             raise ValueError(f'requested shape {tuple(shape)} is larger in at '
                             f'least one dimension than maximum propagation '
@@ -97,6 +99,11 @@ def propagate_fft(wavefront, pixelscale, shape=None, oversample=2,
     out.data.append(Field(data=field, pixelscale=pixelscale/oversample))
 
     return out
+
+
+def _int_pair(shape):
+    # a shape as a pair of python-size integers (whole numbers only)
+    return np.array([operator.index(n) for n in np.broadcast_to(shape, (2,))])
 
 
 def _fold(a, shape):
@@ -196,8 +203,10 @@ def propagate_dft(wavefront, pixelscale, shape=None, prop_shape=None,
     
     ptype_out = _propagate_ptype(wavefront.ptype, method='fraunhofer')
     
-    shape = np.asarray(wavefront.shape) if shape is None else np.broadcast_to(shape, (2,))
-    prop_shape = np.asarray(shape) if prop_shape is None else np.broadcast_to(prop_shape, (2,))
+    # (as platform integers: shape * oversample would wrap around in the narrow
+    # integer type of a caller's array, e.g. uint8 (100, 100) * 3)
+    shape = np.asarray(wavefront.shape) if shape is None else _int_pair(shape)
+    prop_shape = np.asarray(shape) if prop_shape is None else _int_pair(prop_shape)
     shape_out = shape * oversample
     prop_shape_out = prop_shape * oversample
 
